@@ -23,6 +23,8 @@ type Violation struct {
 	Inputs  []InputVal // model values for the harness inputs in creation order
 	Stack   string
 	PathLen int
+	Regions []string
+	Harness string
 }
 
 type InputVal struct {
@@ -59,6 +61,8 @@ type Path struct {
 
 	Violations []Violation
 	Reached    map[string]bool
+	Regions    []string
+	Expected   []string
 	Observed   []string
 	EndReason  string
 	Steps      int64
@@ -304,7 +308,7 @@ func (p *Path) Assert(cond *Term, label string, m *Machine) {
 // violation records a violation on the current path condition (which is satisfiable).
 func (p *Path) violation(kind, label, detail string, m *Machine) {
 	if p.isPinned {
-		p.Violations = append(p.Violations, Violation{Label: label, Kind: kind, Detail: detail, Stack: m.stackString()})
+		p.Violations = append(p.Violations, Violation{Label: label, Kind: kind, Detail: detail, Stack: m.stackString(), Regions: append([]string(nil), p.Regions...)})
 		return
 	}
 	p.flushSide()
@@ -325,7 +329,7 @@ func (p *Path) recordViolation(kind, label, detail string, m *Machine) {
 		ts[i] = in.t
 	}
 	vals, err := p.sol.Values(ts)
-	v := Violation{Label: label, Kind: kind, Detail: detail, PathLen: len(p.Trace)}
+	v := Violation{Label: label, Kind: kind, Detail: detail, PathLen: len(p.Trace), Regions: append([]string(nil), p.Regions...)}
 	if m != nil {
 		v.Stack = m.stackString()
 	}
